@@ -208,8 +208,9 @@ Inductive case :=
      correctly signed request of [visitor]'s session: the allowUsers the message carried, and whether it was admitted *)
 | CCfg (fmt : Z) (k : pkind) (src : cfg_allow) (owner visitor : bytes) (wire : list bytes) (admitted : bool)
   (* xtcp data path after the hole is punched: real XTCPProxy listen function (0 kcp, 1 quic) against the real xtcp
-     visitor over loopback UDP, both ends with the same flags, token <> secret key; backend that echoes / speaks first *)
-| CXtcp (proto : Z) (ue uc : bool) (speaks_first : bool) (transparent : bool) (backend_conns : Z)
+     visitor over loopback UDP; the visitor's and the proxy's declared flags, token <> secret key; a backend that records
+     what it gets and answers, possibly after speaking first, possibly to a user that stays silent until then *)
+| CXtcp (proto : Z) (vue vuc pue puc : bool) (speaks_first user_silent : bool) (transparent : bool) (backend_conns : Z)
   (* real stcp (0) / sudp (1) visitor against a server that writes the NewVisitorConnResp frame and the first
      bytes of the stream in one write *)
 | CFirst (kind : Z) (ue uc : bool) (delivered : bool).
@@ -342,6 +343,13 @@ Fixpoint mon_sys (hash : bytes -> Z -> bytes) (m : msys) (adm : list (bytes * Z)
   | _, _ => true
   end.
 
+Definition xtcp_recorded (c : case) : bool :=
+  match c with
+  | CXtcp proto vue vuc pue puc first silent _ _ =>
+      negb (Bool.eqb vue pue && Bool.eqb vuc puc) || ((proto =? 1) && first && silent)
+  | _ => false
+  end.
+
 Definition C08_holds (c : case) : bool :=
   match c with
   | CVm tbl ops obs => mon_vm (ohash tbl) [] [] ops obs
@@ -358,7 +366,7 @@ Definition C08_holds (c : case) : bool :=
          | CAbsent | CList [] => bytes_eqb visitor owner || bytes_eqb owner vstar
          | CList l => vmem visitor l || vmem vstar l
          end)
-  | CXtcp _ _ _ _ tr n => tr && (n =? 1)
+  | CXtcp _ _ _ _ _ _ _ tr n => tr && (n =? 1)   (* the clause as written: whatever the two ends declare *)
   | CFirst _ _ _ ok => ok
   end.
 
@@ -383,7 +391,12 @@ Definition check_case (c : case) : Z :=
       if negb (blist_eqb wire (load_allow (fmt_of fmt) src)) then 41
       else if negb (Bool.eqb admitted (cfg_admits [] (fmt_of fmt) src owner visitor)) then 42
       else if C08_holds c then 0 else 3
-  | CXtcp _ _ _ _ _ _ => if C08_holds c then 0 else 43
+  | CXtcp _ _ _ _ _ _ _ _ _ =>
+      (* the model predicts transparency for equal declarations only (C08_xtcp_stream_transparent_partial; the full
+         statement is refuted, C08_xtcp_mismatched_flags_refuted) and says nothing about when a quic stream becomes
+         visible: those two classes are judged by the driver under the keys of the recorded findings F-C08d / F-C08e;
+         every other failing stream is a disagreement *)
+      if C08_holds c then 0 else if xtcp_recorded c then 0 else 43
   | CFirst _ _ _ _ => if C08_holds c then 0 else 44
   end.
 
@@ -416,7 +429,13 @@ Definition n_cfg (fmt : Z) : list case -> Z :=
 Definition n_cfg_default_refused : list case -> Z :=
   count_if (fun c => match c with CCfg _ _ (CAbsent | CList []) _ _ _ false => true | _ => false end).
 Definition n_xtcp (proto : Z) : list case -> Z :=
-  count_if (fun c => match c with CXtcp p _ _ _ _ _ => p =? proto | _ => false end).
+  count_if (fun c => match c with CXtcp p vue vuc pue puc _ _ _ _ => (p =? proto) && Bool.eqb vue pue && Bool.eqb vuc puc | _ => false end).
+Definition n_xtcp_mismatched : list case -> Z :=
+  count_if (fun c => match c with CXtcp _ vue vuc pue puc _ _ _ _ => negb (Bool.eqb vue pue && Bool.eqb vuc puc) | _ => false end).
+Definition n_xtcp_kcp_silent_first : list case -> Z :=
+  count_if (fun c => match c with CXtcp 0 _ _ _ _ true true true _ => true | _ => false end).
+Definition n_xtcp_quic_silent_first : list case -> Z :=
+  count_if (fun c => match c with CXtcp 1 _ _ _ _ true true _ _ => true | _ => false end).
 Definition n_first : list case -> Z := count_if (fun c => match c with CFirst _ _ _ _ => true | _ => false end).
 Definition n_sys_late : list case -> Z :=
   sum_over sys_pairs (fun p => match p with (SRegisterLate _ _ _ _ _, ObsZ z) => negb (z =? 0) | _ => false end).
